@@ -483,7 +483,7 @@ var _ = lexer.NewBuilder
 func init() {
 	core.Register(&core.PropSpec{
 		ID: "C16", Level: "model_checking",
-		Rule:     "context stack vs reference nesting model: every chain of <= d nesting constructors (d=3 quick; 4 full alphabet + 5 reduced alphabet thorough) over {block, if/else/while/for block, function declaration, function expression as call argument / array element / object value / let initialiser / return value / IIFE / inside if-, while- and for-headers / operand / index} around 3 leaf bodies, with a sibling statement before and after the nested construct at every level, plus the statement families (brace-less bodies); each parsed (space layout and LF-in-every-gap layout) with one statement and one expression interceptor that record IsInFunction(), CurrentContext() and the current token; oracle per invocation: the token's nesting path recorded by the harness unparser (function body braces = function body, not an extra block) gives IsInFunction <=> path contains a function and CurrentContext = innermost element. Final-state clause: ALL token sequences <= n (4 quick, 5 thorough) x modes, all byte strings <= 4, every truncation of every nested program at a token boundary and every single-token deletion: after ParseProgram CurrentContext()=global and IsInFunction()=false, with and without interceptors. states = distinct context stacks observed at an invocation; transitions = interceptor invocations checked",
+		Rule:     "context stack vs reference nesting model: every chain of <= d nesting constructors (d=3 quick; 4 full alphabet + 5 reduced alphabet thorough) over {block, if/else/while/for block, function declaration, function expression as call argument / array element / object value / let initialiser / return value / IIFE / inside if-, while- and for-headers / operand / index} around 3 leaf bodies, with a sibling statement before and after the nested construct at every level, plus the statement families (brace-less bodies); each parsed (space layout and LF-in-every-gap layout) with one statement and one expression interceptor that record IsInFunction(), CurrentContext() and the current token; oracle per invocation: the token's nesting path recorded by the harness unparser (function body braces = function body, not an extra block) gives IsInFunction <=> path contains a function and CurrentContext = innermost element. Final-state clause: ALL token sequences <= n (4 quick, 5 thorough) x modes, all byte strings <= 4, every truncation of every nested program at a token boundary and every single-token deletion: after ParseProgram CurrentContext()=global and IsInFunction()=false, with and without interceptors. states = distinct context stacks observed at an invocation; transitions = interceptor invocations checked Added: every ordered pair of nesting constructors x leaf bodies side by side (top level and inside a function); chains of one constructor (and alternating pairs) nested 5, 9, 17 (33, 65 thorough) deep; sub-parse clause: every program again with a statement interceptor that parses a nested snippet with a SECOND parser of the same builder before answering.",
 		Assume:   []string{"nesting paths come from the harness unparser; its statement structure is cross-checked against goja by C02"},
 		QuickSec: 300, ThorSec: 3600, Run: c16Run, Replay: c16Replay,
 		Evals: "programs_parsed", Nontriv: "programs_with_invocations", States: "states", Trans: "interceptor_invocations",
